@@ -68,13 +68,19 @@ class Persistence:
         split_fname = os.path.splitext(fname)
         tmp_fname = f"{split_fname[0]}.tmp{split_fname[1]}"
         _LOGGER.debug("Saving sensors to persistence file %s", fname)
-        self._perform_file_action(tmp_fname, "save")
-        if exists:
-            os.rename(fname, self.persistence_bak)
-        os.rename(tmp_fname, fname)
-        if exists:
-            os.remove(self.persistence_bak)
+        # Clear the flag before writing: a change reported by another thread
+        # while the file is written sets it again for the next save.
         self.need_save = False
+        try:
+            self._perform_file_action(tmp_fname, "save")
+            if exists:
+                os.rename(fname, self.persistence_bak)
+            os.rename(tmp_fname, fname)
+            if exists:
+                os.remove(self.persistence_bak)
+        except BaseException:
+            self.need_save = True
+            raise
 
     def _load_sensors(self, path=None):
         """Load sensors from file."""
